@@ -129,26 +129,28 @@ def RxSO3Mul (X Y : RxSO3 α) : RxSO3 α := ⟨X.q.mul Y.q, X.s * Y.s⟩
 def RxSO3Inv (X : RxSO3 α) : RxSO3 α := ⟨X.q.conj, k 1 / X.s⟩
 def RxSO3Act (X : RxSO3 α) (p : Vec3 α) : Vec3 α := (X.q.act p).smul X.s
 
-/-- coefficients `(A, B, C)` of `rxso3_Ws` (four regimes; `C` as repaired with `expm1`, i.e. the exact
-`(e^σ − 1)/σ`). -/
+/-- coefficients `(A, B, C)` of `rxso3_Ws` (four regimes).  `em1` models `torch.expm1(sigma)`, which over
+the reals is `e^σ − 1`; `bm1` is the code's cancellation-free `s·cos θ − 1 = em1·cos θ − 2 sin²(θ/2)`. -/
 def rxso3WsCoef (eps : α) (th sigma : α) : α × α × α :=
   let sl := Scalar.lt eps (sabs sigma)
   let tl := Scalar.lt eps th
   let scale := Scalar.exp sigma
+  let em1 := scale - k 1
   let s2 := sigma * sigma
   let t2 := th * th
-  let C := if sl then (scale - k 1) / sigma else k 1
+  let C := if sl then em1 / sigma else k 1
   if !sl && !tl then (q 1 2, q 1 6, C)
   else if !sl && tl then ((k 1 - Scalar.cos th) * (k 1 / t2), (th - Scalar.sin th) / (t2 * th), C)
   else if sl && !tl then
-    ((k 1 + (sigma - k 1) * scale) / s2,
-     (q 1 2 * s2 * scale + scale - k 1 - s2 * scale) / (s2 * sigma), C)
+    ((sigma * scale - em1) / s2,
+     (q 1 2 * s2 * scale + em1 - sigma * scale) / (s2 * sigma), C)
   else
     let a := scale * Scalar.sin th
-    let b := scale * Scalar.cos th
+    let sh := Scalar.sin (q 1 2 * th)
+    let bm1 := em1 * Scalar.cos th - k 2 * (sh * sh)
     let c := t2 + s2
-    ((a * sigma + (k 1 - b) * th) / (th * c),
-     (C - ((b - k 1) * sigma + a * th) / c) * (k 1 / t2), C)
+    ((a * sigma - bm1 * th) / (th * c),
+     (C - (bm1 * sigma + a * th) / c) * (k 1 / t2), C)
 
 /-- `rxso3_Ws` : `A K + B K² + C·1` -/
 def rxso3Ws (eps : α) (x : rxso3 α) : Mat3 α :=
